@@ -677,23 +677,15 @@ func suiteDA(e *Env) {
 		e.Obs("setup-error proofs %v", err)
 		return
 	}
+	daScenarioDuplicateIndex(e, zk)
 	for h := 0; h < e.N; h++ {
 		daHistory(e, zk, h)
 	}
 }
 
-func daHistory(e *Env, zk *daZk, h int) {
+// daSetup builds a fresh chain with `nv` validators and the given DA params, names the accounts, prints the reset block
+func daSetup(e *Env, zk *daZk, nv int, par daParams) (w *daWorld, s0 daSnap, ok bool) {
 	r := e.R
-	nv := 1 + r.N(5)
-	if h%7 == 3 {
-		nv = 1
-	}
-	par := daRandParams(r, true)
-	if h%5 == 1 { // the shipped defaults scaled down in time
-		par = daParams{thr: bi("330000000000000000"), rf: bi("1000000000000000000"), epoch: uint64(2 + r.N(6)), sft: bi("500000000000000000"), frac: bi("1000000000000000"),
-			cp: 4e9, pp: 6e9, rrp: 9e9, vrp: 12e9,
-			pub: sdk.NewCoins(sdk.NewCoin("urise", sdkmath.NewInt(1_000_000_000))), inv: sdk.NewCoins(sdk.NewCoin("urise", sdkmath.NewInt(100_000_000)))}
-	}
 	cfg := sim.DefaultConfig()
 	cfg.NumAccs = 6
 	cfg.ValPowers = nil
@@ -716,9 +708,9 @@ func daHistory(e *Env, zk *daZk, h int) {
 	c, err := sim.New(cfg)
 	if err != nil {
 		e.Obs("setup-error %v", err)
-		return
+		return nil, daSnap{}, false
 	}
-	w := &daWorld{e: e, c: c, zk: zk, name: map[string]string{}, accOf: map[string]sim.Acc{}, nv: nv, par: par, dust: map[string]*big.Int{}, shard: map[string][]int{}}
+	w = &daWorld{e: e, c: c, zk: zk, name: map[string]string{}, accOf: map[string]sim.Acc{}, nv: nv, par: par, dust: map[string]*big.Int{}, shard: map[string][]int{}}
 	for _, d := range daDenoms {
 		w.dust[d] = new(big.Int)
 	}
@@ -743,9 +735,9 @@ func daHistory(e *Env, zk *daZk, h int) {
 	gotPar, _ := c.App.DaKeeper.Params.Get(c.Ctx())
 	if gotPar.ChallengeThreshold != realPar.ChallengeThreshold || gotPar.ChallengePeriod != realPar.ChallengePeriod || !gotPar.PublishDataCollateral.Equal(realPar.PublishDataCollateral) {
 		e.Obs("setup-error genesis params not applied: %v", gotPar.ChallengeThreshold)
-		return
+		return nil, daSnap{}, false
 	}
-	s0 := w.snap()
+	s0 = w.snap()
 	e.In("reset now=%d height=%d denoms=%s vals=%s", s0.nowNs, s0.heightH, strings.Join(daDenoms, ","), strings.Join(w.vals, ","))
 	for _, n := range w.names {
 		p := []string{}
@@ -757,6 +749,26 @@ func daHistory(e *Env, zk *daZk, h int) {
 	e.In("initparams %s", par.line())
 	e.Obs("st %s", s0.line(w))
 
+	return w, s0, true
+}
+
+func daHistory(e *Env, zk *daZk, h int) {
+	r := e.R
+	nv := 1 + r.N(5)
+	if h%7 == 3 {
+		nv = 1
+	}
+	par := daRandParams(r, true)
+	if h%5 == 1 { // the shipped defaults scaled down in time
+		par = daParams{thr: bi("330000000000000000"), rf: bi("1000000000000000000"), epoch: uint64(2 + r.N(6)), sft: bi("500000000000000000"), frac: bi("1000000000000000"),
+			cp: 4e9, pp: 6e9, rrp: 9e9, vrp: 12e9,
+			pub: sdk.NewCoins(sdk.NewCoin("urise", sdkmath.NewInt(1_000_000_000))), inv: sdk.NewCoins(sdk.NewCoin("urise", sdkmath.NewInt(100_000_000)))}
+	}
+	w, s0, ok := daSetup(e, zk, nv, par)
+	if !ok {
+		return
+	}
+	c := w.c
 	nextURI := 0
 	uris := []string{}
 	pickAcc := func() string { return w.names[r.N(len(w.names))] }
@@ -1223,4 +1235,34 @@ func daParamsJSON(p datypes.Params) map[string]any {
 		"rejected_removal_period": dur(p.RejectedRemovalPeriod), "verified_removal_period": dur(p.VerifiedRemovalPeriod),
 		"publish_data_collateral": coins(p.PublishDataCollateral), "submit_invalidity_collateral": coins(p.SubmitInvalidityCollateral),
 	}
+}
+
+// Directed history for S12 (always run first): one validator proves every shard twice inside ONE proof; with
+// replication factor 2 a shard needs two distinct validators, so the item must be REJECTED (reference tally).
+func daScenarioDuplicateIndex(e *Env, zk *daZk) {
+	par := daParams{thr: bi("1"), rf: bi("2000000000000000000"), epoch: 1000000, sft: bi("500000000000000000"), frac: bi("1000000000000000"),
+		cp: 4e9, pp: 6e9, rrp: 9e9, vrp: 12e9,
+		pub: sdk.NewCoins(sdk.NewCoin("urise", sdkmath.NewInt(1000))), inv: sdk.NewCoins(sdk.NewCoin("urise", sdkmath.NewInt(100)))}
+	w, cur, ok := daSetup(e, zk, 2, par)
+	if !ok {
+		return
+	}
+	c := w.c
+	pubr, chal, val := w.names[5], w.names[4], w.vals[0]
+	e.In("publish %s u0 shards=2 parity=0", pubr)
+	_, err, p := c.Exec(&datypes.MsgPublishData{Sender: w.accOf[pubr].Addr.String(), MetadataUri: "u0", ParityShardCount: 0, ShardDoubleHashes: [][]byte{zk.hash[0], zk.hash[0]}})
+	w.shard["u0"] = []int{0, 0}
+	w.afterMsg("publish", class(err, p), cur, &cur, nil)
+	e.In("invalid %s u0 0", chal)
+	_, err, p = c.Exec(&datypes.MsgSubmitInvalidity{Sender: w.accOf[chal].Addr.String(), MetadataUri: "u0", Indices: []int64{0}})
+	w.afterMsg("invalid", class(err, p), cur, &cur, nil)
+	if _, _, _, halted := w.block(cur, 1e9, &cur); halted {
+		return
+	}
+	e.In("proof %s %s u0 0:1,0:1,1:1,1:1 extra=0 exists=1 bonded=1", val, val)
+	_, err, p = c.Exec(&datypes.MsgSubmitValidityProof{Sender: w.accOf[val].Addr.String(), ValidatorAddress: sdk.ValAddress(w.accOf[val].Addr).String(),
+		MetadataUri: "u0", Indices: []int64{0, 0, 1, 1}, Proofs: [][]byte{zk.proof[0], zk.proof[0], zk.proof[0], zk.proof[0]}})
+	w.afterMsg("proof", class(err, p), cur, &cur, nil)
+	e.Stat("scenario.duplicate_index")
+	w.block(cur, 7e9, &cur)
 }
